@@ -56,7 +56,9 @@ AWARE = [["dt", 2020, 3, 10, 10, 0, 0, ["utc"]], ["dt", 2020, 3, 10, 12, 30, 0, 
          ["dt", 2020, 3, 29, 1, 30, 0, ["zi", "Europe/Berlin"]],
          ["dt", 2020, 3, 7, 12, 0, 0, ["pytz", "America/New_York"]],
          ["dt", 2020, 3, 8, 12, 0, 0, ["pytz", "America/New_York"]],
-         ["dt", 2020, 10, 25, 2, 30, 0, ["zi", "Europe/Berlin"]]]
+         ["dt", 2020, 10, 25, 2, 30, 0, ["zi", "Europe/Berlin"]],
+         # the same wall-clock time an hour later (fold=1, +01:00): only the API can say so, no text carries it
+         ["dt", 2020, 10, 25, 2, 30, 0, ["zi", "Europe/Berlin", 1]], ["dt", 2020, 10, 25, 2, 0, 0, ["zi", "Europe/Berlin", 1]]]
 # no dateutil-zoned values: after a serialise-and-parse step the value carries the provider's zone object, and
 # dateutil and zoneinfo disagree about the UTC offset of wall times inside a DST gap (a false alarm of the
 # harness, found by the benign-mutant self-test, when such a value was in the pool)
@@ -135,6 +137,8 @@ class Model:
                 spec = spec[:-1]
             if spec[0] == "td" and len(spec) > 3:      # the text of a DURATION ends at the seconds
                 spec = spec[:3]
+            if spec[0] == "dt" and spec[7] and spec[7][0] == "zi" and len(spec[7]) > 2:
+                spec = spec[:7] + [spec[7][:2]] + spec[8:]      # ... and no text says which of two equal times
             if spec[0] == "dt" and spec[7] and spec[7][0] == "pytz":
                 return spec[:7] + [["zi", spec[7][1]]]
             return spec
